@@ -48,7 +48,9 @@ var (
 	// This means APK should be a child of JAR detector, but in practice,
 	// the decisive signature for JAR might be located at the end of the file
 	// and not reachable because of library readLimit.
-	zip = newMIME("application/zip", ".zip", magic.Zip, xlsx, docx, pptx, epub, apk, jar, odt, ods, odp, odg, odf, odc, sxc).
+	// Formats identified by a leading stored "mimetype" entry (EPUB, OpenDocument)
+	// go before APK and JAR: such a package may also carry META-INF/MANIFEST.MF.
+	zip = newMIME("application/zip", ".zip", magic.Zip, xlsx, docx, pptx, epub, odt, ods, odp, odg, odf, odc, sxc, apk, jar).
 		alias("application/x-zip", "application/x-zip-compressed")
 	tar = newMIME("application/x-tar", ".tar", magic.Tar)
 	xar = newMIME("application/x-xar", ".xar", magic.Xar)
